@@ -63,6 +63,39 @@ fn arb_case(len: std::ops::Range<usize>) -> BoxedStrategy<rh::History> {
         .boxed()
 }
 
+fn arb_dense() -> BoxedStrategy<rh::History> {
+    use vf_world::ops::{AttrK, Op, Ref};
+    let attr = prop_oneof![Just(AttrK::Description), Just(AttrK::LegalName), Just(AttrK::Mail)];
+    let r = 0u8..3;
+    let op = prop_oneof![
+        3 => (attr.clone(), 0u8..3).prop_map(|(attr, v)| Op::SetAttr { t: Ref::P(0), attr, vals: vec![v] }),
+        3 => attr.clone().prop_map(|attr| Op::PurgeAttr { t: Ref::P(0), attr }),
+        1 => (attr, 0u8..3).prop_map(|(attr, val)| Op::AddAttr { t: Ref::P(0), attr, val }),
+        2 => Just(Op::SetMembers { g: Ref::G(0), members: vec![] }),
+        2 => Just(Op::SetMembers { g: Ref::G(0), members: vec![Ref::P(0)] }),
+        1 => Just(Op::RemoveMember { g: Ref::G(0), m: Ref::P(0) }),
+        1 => Just(Op::Advance { secs: 2 }),
+    ];
+    let pair = (0u8..3, 0u8..3).prop_filter_map("distinct", |(a, b)| if a != b { Some((a, b)) } else { None });
+    let step = prop_oneof![
+        5 => (r, op).prop_map(|(r, op)| Step::Do { r, op }),
+        4 => pair.prop_map(|(from, to)| Step::Repl { from, to }),
+    ];
+    (proptest::collection::vec(step, 4..14), proptest::bool::weighted(0.8))
+        .prop_map(|(body, synced)| {
+            let mut steps = vec![
+                Step::Do { r: 0, op: Op::CreatePerson { i: 0, name: 0 } },
+                Step::Do { r: 0, op: Op::CreateGroup { i: 0, name: 1, members: vec![Ref::P(0)] } },
+                Step::Do { r: 0, op: Op::SetAttr { t: Ref::P(0), attr: AttrK::Description, vals: vec![0] } },
+                Step::Repl { from: 0, to: 1 },
+                Step::Repl { from: 0, to: 2 },
+            ];
+            steps.extend(body);
+            rh::History { replicas: 3, synced, steps }
+        })
+        .boxed()
+}
+
 const SIG_APPLY: &str = "consumer failed to apply a supplied change set";
 const SIG_SUPPLY: &str = "supplier failed to provide changes";
 const SIG_REFRESH: &str = "refresh failed";
@@ -229,6 +262,12 @@ fn main() {
     let n = cx.tier.pick(220, 6_000);
     let len = cx.tier.pick(10..30usize, 20..70usize);
     cx.prop("histories", PropCfg::new(n).shrink(250), || arb_case(len.clone()), srv::runtime, |rt, c| rt.block_on(run(c)));
+    // Dense three-replica relay scenarios on ONE entry and few attributes: set / purge / member edits
+    // racing on different replicas with relayed replication (x -> y -> z). Uniform histories reach the
+    // "purge newer than a concurrent set, delivered to the third replica in the other order" shape
+    // too rarely (a seeded merge_state change that only diverges with a relay went unnoticed).
+    let nd = cx.tier.pick(160, 4_000);
+    cx.prop("dense-relay", PropCfg::new(nd).shrink(250), arb_dense, srv::runtime, |rt, c| rt.block_on(run(c)));
     gx::fail_on_harness_errors(&cx);
     cx.require_class("concurrent:same-entry", 40);
     cx.require_class("replicas-3", 30);
